@@ -136,9 +136,9 @@ func sequentialCases(run *common.Run) *part {
 		t0 := time.Now()
 		results := make([]*cfgResult, len(f.Configs))
 		base := order
-		done := parallelConfigs(len(f.Configs), deadline, func(i int) { results[i] = explore(f.Configs[i], base+i) })
+		done := parallelConfigs(len(f.Configs), deadline, func(i int) { results[i] = explore(f.Configs[i], base+i, deadline) })
 		order += len(f.Configs)
-		var st, ed, rp, ev, closed, ran int64
+		var st, ed, rp, ev, closed, ran, truncated int64
 		maxDepth := 0
 		for i, r := range results {
 			if r == nil {
@@ -153,6 +153,9 @@ func sequentialCases(run *common.Run) *part {
 			if r.closed {
 				closed++
 			}
+			if r.truncated {
+				truncated++
+			}
 			if r.depthReached > maxDepth {
 				maxDepth = r.depthReached
 			}
@@ -166,9 +169,9 @@ func sequentialCases(run *common.Run) *part {
 				p.Samples = append(p.Samples, r.sample)
 			}
 		}
-		if done < len(f.Configs) || ran < int64(len(f.Configs)) {
+		if done < len(f.Configs) || ran < int64(len(f.Configs)) || truncated > 0 {
 			p.Exhaustive = false
-			run.Note("%s: time budget reached after %d of %d configurations", f.Name, ran, len(f.Configs))
+			run.Note("%s: time budget reached after %d of %d configurations (%d cut short)", f.Name, ran, len(f.Configs), truncated)
 		}
 		p.States += st
 		p.Transitions += ed
